@@ -33,7 +33,9 @@ Insts == <<
   [name |-> "dense-1", n |-> 1, b |-> <<>>], [name |-> "dense-2", n |-> 2, b |-> <<>>], [name |-> "toeplitz-batch", n |-> 3, b |-> <<2, 1>>],
   [name |-> "lowrank-batch", n |-> 4, b |-> <<2>>], [name |-> "interp", n |-> 4, b |-> <<>>], [name |-> "blockdiag", n |-> 4, b |-> <<>>],
   \* members of very different magnitude: the stopping rule is relative to EACH member's own largest diagonal entry
-  [name |-> "scale-batch", n |-> 4, b |-> <<2>>], [name |-> "scale-batch-3", n |-> 3, b |-> <<3>>] >>
+  [name |-> "scale-batch", n |-> 4, b |-> <<2>>], [name |-> "scale-batch-3", n |-> 3, b |-> <<3>>],
+  \* a constant per batch member times a dense batch (ConstantMulLinearOperator supplies its own approximate diagonal)
+  [name |-> "constmul-batch", n |-> 4, b |-> <<2>>], [name |-> "constmul-batch-3", n |-> 3, b |-> <<3>>] >>
 InstTerm(i, seed) ==
   LET I == Insts[i] n == I.n b == I.b IN
   CASE I.name \in {"dense-full", "dense-batch", "dense-5", "dense-3", "dense-1", "dense-2"} -> Op_Dense(PdSmall(n, b, seed))
@@ -44,6 +46,7 @@ InstTerm(i, seed) ==
     [] I.name = "scale-batch" -> Op_Dense(T_Cat(<<T_Unsqueeze(PdSmall(n, <<>>, seed), 0), T_Unsqueeze(T_Scale(PdSmall(n, <<>>, seed + 1), 8), 0)>>, 0))
     [] I.name = "scale-batch-3" -> Op_Dense(T_Cat(<<T_Unsqueeze(PdSmall(n, <<>>, seed), 0), T_Unsqueeze(T_Scale(PdSmall(n, <<>>, seed + 1), 8), 0),
                                                    T_Unsqueeze(T_Scale(PdSmall(n, <<>>, seed + 2), 3), 0)>>, 0))
+    [] I.name \in {"constmul-batch", "constmul-batch-3"} -> Op_ConstMul(Op_Dense(PdSmall(n, b, seed)), T_Fill(b, seed + 3, 1, 3))
     [] I.name = "kron" -> Op_Kron(<<Op_Dense(PdSmall(2, b, seed)), Op_Dense(PdSmall(2, b, seed + 1))>>)
     [] I.name = "sum-dense-diag" -> Op_Sum(<<Op_Dense(PdSmall(n, b, seed)), Op_Diag(T_Fill(b \o <<n>>, seed + 2, 0, 2))>>)
     [] I.name = "root" -> Op_RootT(T_Fill(b \o <<n, 3>>, seed, -1, 1))
